@@ -751,10 +751,12 @@ pub struct RunOpts {
     pub send: bool,
     /// stop after this many write calls without calling end (prefix runs)
     pub no_end: bool,
+    /// yield to other threads between writes (and spin a little, seeded by the value)
+    pub yields: u32,
 }
 impl Default for RunOpts {
     fn default() -> Self {
-        RunOpts { poke_after_error: false, send: false, no_end: false }
+        RunOpts { poke_after_error: false, send: false, no_end: false, yields: 0 }
     }
 }
 
@@ -786,7 +788,13 @@ macro_rules! mk_run {
             let (u, m) = rw.verif_memory_usage();
             push(json!({"e":"ret","res":"ok","usage":u,"max": if m > (i32::MAX as usize) { -1i64 } else { m as i64 }}));
             let mut failed = false;
+            let mut spin = opts.yields;
             for ch in chunks_of(input, cuts) {
+                if opts.yields > 0 {
+                    std::thread::yield_now();
+                    spin = spin.wrapping_mul(1664525).wrapping_add(1013904223);
+                    for _ in 0..(spin >> 24) { std::hint::spin_loop(); }
+                }
                 push(json!({"e":"call","op":"write","b":ch}));
                 let r = catch_unwind(AssertUnwindSafe(|| rw.write(ch)));
                 let res = match &r {
@@ -856,6 +864,45 @@ pub fn run(cfg: &Value, input: &[u8], cuts: &[usize], opts: &RunOpts) -> Vec<Val
         run_send(cfg, input, cuts, opts, &log);
     } else {
         run_local(cfg, input, cuts, opts, &log);
+    }
+    let tl = std::mem::take(&mut log.lock().unwrap().tl);
+    tl
+}
+
+/// A `Send` rewriter that is moved to a fresh thread for every write and for end().
+pub fn run_migrating(cfg: &Value, input: &[u8], cuts: &[usize]) -> Vec<Value> {
+    let fail_at = cfg.get("fail_at").and_then(|x| x.as_u64()).map(|x| x as usize);
+    let log = new_log(fail_at, false);
+    let push = |v: Value| log.lock().unwrap().tl.push(v);
+    let settings = match settings_send(cfg, &log) { Ok(s) => s, Err(e) => { push(json!({"e":"new","res":format!("err:{e}")})); return std::mem::take(&mut log.lock().unwrap().tl); } };
+    push(json!({"e":"call","op":"new"}));
+    let mut rw: lol_html::send::HtmlRewriter<'static, RecSink> = HtmlRewriter::new(settings, RecSink { log: log.clone() });
+    let (u, m) = rw.verif_memory_usage();
+    push(json!({"e":"ret","res":"ok","usage":u,"max": if m > (i32::MAX as usize) { -1i64 } else { m as i64 }}));
+    let mut failed = false;
+    for ch in chunks_of(input, cuts) {
+        push(json!({"e":"call","op":"write","b":ch}));
+        let chunk = ch.to_vec();
+        // the rewriter travels to another thread, is used there and travels back
+        let (back, res) = std::thread::spawn(move || {
+            let r = catch_unwind(AssertUnwindSafe(|| rw.write(&chunk)));
+            let res = match &r { Ok(Ok(())) => "ok".to_string(), Ok(Err(e)) => err_kind(e).to_string(), Err(_) => "panic".to_string() };
+            (rw, res)
+        }).join().unwrap();
+        rw = back;
+        let (u, _) = rw.verif_memory_usage();
+        let sl = log.lock().unwrap().sink_len;
+        push(json!({"e":"ret","res":res,"usage":u,"sl":sl}));
+        if res != "ok" { failed = true; break; }
+    }
+    if !failed {
+        push(json!({"e":"call","op":"end"}));
+        let res = std::thread::spawn(move || {
+            let r = catch_unwind(AssertUnwindSafe(move || rw.end()));
+            match &r { Ok(Ok(())) => "ok".to_string(), Ok(Err(e)) => err_kind(e).to_string(), Err(_) => "panic".to_string() }
+        }).join().unwrap();
+        let sl = log.lock().unwrap().sink_len;
+        push(json!({"e":"ret","res":res,"sl":sl}));
     }
     let tl = std::mem::take(&mut log.lock().unwrap().tl);
     tl
